@@ -145,7 +145,7 @@ pub fn build(spec: &VolSpec) -> Result<(Vec<u8>, Option<Vec<u32>>), String> {
     });
     // estimate total sectors then search around it
     let est = (want * spec.spc as u64) as u32;
-    let lo = est.saturating_sub(8).max(16);
+    let lo = est.saturating_sub(8).max(1);
     let hi = est + (est / 64) + 4096;
     let mut total = None;
     for t in lo..hi {
@@ -212,7 +212,26 @@ pub fn cfg_from(name: &str, img: Vec<u8>, cands: Option<Vec<u32>>) -> Cfg {
 }
 
 pub fn tiny(fat: FatType) -> Cfg {
-    let spec = match fat {
+    tiny_with(fat, if fat == FatType::Fat12 { 20 } else { 12 }, 16)
+}
+
+/// tiny working volume with `nfree` free clusters and a `root_entries`-slot fixed root (FAT12/16)
+pub fn tiny_with(fat: FatType, nfree: usize, root_entries: u16) -> Cfg {
+    let mut spec = tiny_spec(fat);
+    match fat {
+        FatType::Fat12 => spec.clusters = Some(nfree as u64),
+        _ => spec.free = Some(nfree),
+    }
+    if fat != FatType::Fat32 {
+        spec.root_entries = root_entries;
+    }
+    spec.name = format!("{}-f{}-r{}", spec.name, nfree, spec.root_entries);
+    let (img, cands) = build(&spec).expect("tiny volume");
+    cfg_from(&spec.name, img, cands)
+}
+
+fn tiny_spec(fat: FatType) -> VolSpec {
+    match fat {
         FatType::Fat12 => VolSpec {
             name: "t12".into(),
             fat,
@@ -246,9 +265,7 @@ pub fn tiny(fat: FatType) -> Cfg {
             free: Some(12),
             tail: 0,
         },
-    };
-    let (img, cands) = build(&spec).expect("tiny volume");
-    cfg_from(&spec.name, img, cands)
+    }
 }
 
 /// Decode helper for harness self-tests.
